@@ -1572,23 +1572,45 @@ def check_alloc(tier, seed, chk, prop):
         if r.rc != 0 or not r.stats:
             violation(res, {"check": "alloc-e2e", "class": "crash"}, "%s: exit %s, %d statistics blocks: %s" % (desc, r.rc, len(r.stats), r.err[-300:]), r)
             continue
+        # statistics blocks come in display order: map them to their benchmarks through the model's tree
+        runner = {"threads": [1, 2]} if "--threads" in extra else {}
+        leaves = [w for _, w in tree_paths(expected_tree(model, cases, "bench", "none", "kind", False, runner)) if w.case is not None]
+        if len(leaves) != len(r.stats):
+            violation(res, {"check": "alloc-e2e", "class": "blocks"}, "%s: %d statistics blocks for %d displayed rows" % (desc, len(r.stats), len(leaves)), r)
+            continue
+        benches_by_id = {b["id"]: b for b in model["benches"]}
         for k, st in enumerate(r.stats):
             if st["sample_count"] == 0:
                 continue
+            style = benches_by_id[leaves[k].case["bench"]]["style"]
             ops = st["alloc_ops"]  # Grow, Shrink, Alloc, Dealloc
             got = {
                 "alloc count": bits_to_floats(ops[2]["count_bits"]), "alloc bytes": bits_to_floats(ops[2]["size_bits"]),
                 "dealloc count": bits_to_floats(ops[3]["count_bits"]), "grow count": bits_to_floats(ops[0]["count_bits"]), "shrink count": bits_to_floats(ops[1]["count_bits"]),
                 "max alloc count": bits_to_floats(st["max_alloc"]["count_bits"]), "max alloc bytes": bits_to_floats(st["max_alloc"]["size_bits"]),
             }
-            want = {"alloc count": [1.0] * 4, "alloc bytes": [32.0] * 4, "dealloc count": [0.0] * 4, "grow count": [0.0] * 4, "shrink count": [0.0] * 4,
-                    "max alloc count": [1.0] * 4, "max alloc bytes": [32.0] * 4}
+            got["dealloc bytes"] = bits_to_floats(ops[3]["size_bits"])
+            got["shrink bytes"] = bits_to_floats(ops[1]["size_bits"])
+            zero = [0.0] * 4
+            want = {"alloc count": zero, "alloc bytes": zero, "dealloc count": zero, "dealloc bytes": zero, "grow count": zero, "shrink count": zero, "shrink bytes": zero,
+                    "max alloc count": zero, "max alloc bytes": zero}
+            if style == "alloc_exact":
+                what = "each benchmarked call makes exactly one 32-byte allocation on its own thread (the input's 64 bytes are allocated before the start, outputs are dropped after the end)"
+                want = dict(want, **{"alloc count": [1.0] * 4, "alloc bytes": [32.0] * 4, "max alloc count": [1.0] * 4, "max alloc bytes": [32.0] * 4})
+            elif style == "values_free_only":
+                what = "each benchmarked call only frees its 64-byte input (the peak relative to the start stays zero)"
+                want = dict(want, **{"dealloc count": [1.0] * 4, "dealloc bytes": [64.0] * 4})
+            elif style == "refs_shrink_only":
+                what = "each benchmarked call only shrinks its input's buffer from 64 to 8 bytes"
+                want = dict(want, **{"shrink count": [1.0] * 4, "shrink bytes": [56.0] * 4})
+            else:
+                continue
             bad = {f: (got[f], want[f]) for f in want if any(abs(a - b) > 1e-9 for a, b in zip(got[f], want[f]))}
             if bad:
                 f0 = sorted(bad)[0]
                 violation(res, {"check": "alloc-e2e", "class": "figures", "field": f0},
-                          "%s: statistics block %d (samples %d, iters %d): each benchmarked call makes exactly one 32-byte allocation on its own thread (the input's 64 bytes are allocated before the start, outputs are dropped after the end), but (fastest, slowest, median, mean) per iteration are %s" % (
-                              desc, k, st["sample_count"], st["iter_count"], {f: bad[f][0] for f in bad}), r)
+                          "%s: statistics block %d (samples %d, iters %d): %s, but (fastest, slowest, median, mean) per iteration are %s" % (
+                              desc, k, st["sample_count"], st["iter_count"], what, {f: bad[f][0] for f in bad}), r)
     res["samples"] = [{"variants": [" ".join(v) for v in variants], "benches": [c["path"] for c in cases]}]
     res["bounds"] = {"note": "real global AllocProfiler, real threads (T = 1 and 2), virtual clock; exact expected figures per iteration", "runs": len(variants), "tier_zoo": tier}
     res["wall_s"] = time.time() - t0
